@@ -107,7 +107,7 @@ def generate(rng, tier, index):
             cands = sorted(k for k in keys if k[0] in ("solution", "equilibrium_phases", "kinetics", "reaction", "exchange"))
             if cands:
                 kind, n = rng.choice(cands)
-                ops.append({"op": "modify", "kind": kind, "n": n, "v": rng.range(1, 9)})
+                ops.append({"op": "modify", "kind": kind, "n": n, "v": rng.range(1, 9), "newel": rng.chance(40)})
         elif r < 84:
             sols = sorted(n for k, n in keys if k == "solution" and n < 50)
             if sols:
@@ -159,9 +159,10 @@ def op_text(op, store, explicit=False):
         if kind == "equilibrium_phases":
             return "EQUILIBRIUM_PHASES_MODIFY %d\n -component Calcite\n  -moles %d.5\nEND\n" % (n, v)
         if kind == "kinetics":
-            return "KINETICS_MODIFY %d\n -component krate\n  -m %d.25\nEND\n" % (n, v)
+            # newel: the modification brings an element (Sr, S / K, Br) that no other reactant of the histories holds
+            return "KINETICS_MODIFY %d\n -component krate\n  -m %d.25\n%sEND\n" % (n, v, "  -namecoef\n   NaCl 1\n   SrSO4 0.5\n" if op.get("newel") else "")
         if kind == "reaction":
-            return "REACTION_MODIFY %d\n -reactant_list\n  NaCl %d.5\nEND\n" % (n, v)
+            return "REACTION_MODIFY %d\n -reactant_list\n  NaCl %d.5\n%sEND\n" % (n, v, "  KBr 0.25\n" if op.get("newel") else "")
         return "EXCHANGE_MODIFY %d\n -component CaX2\n  -totals\n   Ca 0.0%d5\n   X 0.%d\nEND\n" % (n, v, v)
     if k == "save":
         t = "USE solution %d\n" % op["a"]
@@ -205,6 +206,10 @@ class Model:
             return None          # defining a MIX runs the mix: its solutions must exist
         if k == "def":
             cid = "def:%s:%d" % (op["kind"], op["v"]) if op["kind"] != "mix" else "def:mix:%d:%d" % (op["n"], op["v"])     # content is a function of kind and variant
+            if op["kind"] == "solution":
+                # a solution's stored content is the result of its initial calculation: the same text defined by two different operations agrees
+                # to solver tolerance only (starting estimates differ), so only the numbers of one definition (a range) must be identical copies
+                cid = self.new(cid)
             for i in range(op["n"], op["m"] + 1):
                 s[(op["kind"], i)] = cid
                 touched.add((op["kind"], i))
@@ -232,7 +237,7 @@ class Model:
         elif k == "modify":
             key = (op["kind"], op["n"])
             if key in s:
-                s[key] = "mod(%s,%d)" % (s[key], op["v"])      # a function of the previous content and the variant
+                s[key] = "mod(%s,%d%s)" % (s[key], op["v"], "+" if op.get("newel") and op["kind"] in ("kinetics", "reaction") else "")      # a function of the previous content and the variant
                 touched.add(key)
         elif k == "save":
             if ("solution", op["a"]) not in s or any((kd, op["a"]) not in s for kd in op["kinds"]) or not op["kinds"]:
@@ -378,7 +383,7 @@ def check_plan(ctx, plan):
             if key in prev and prev[key][0] == sym and prev[key][1] != got[key]:
                 rep.viol("content", "C14:untouched_changed:" + key[0], "%s: %s %d was not named by any operation of the call but its content changed" % (what, key[0], key[1]))
                 break
-            if key in prev and prev[key][0] != sym and last_writer.get(key) == "def" and prev[key][0].startswith("def:") and prev[key][1] == got[key]:
+            if key in prev and prev[key][0].split("#")[0] != sym.split("#")[0] and last_writer.get(key) == "def" and prev[key][0].startswith("def:") and prev[key][1] == got[key]:
                 rep.viol("content", "C14:write_lost:" + key[0], "%s: %s %d was redefined with other values but its content is unchanged" % (what, key[0], key[1]))
                 break
         # a *_MODIFY that is the last writer of its entry: the named quantity reads back as written
@@ -405,8 +410,19 @@ def check_plan(ctx, plan):
             need |= set(ELEMENTS.get(kd, []))
         if ("solid_solutions" not in [k for k, n in want]):
             need.discard("Sr")
+        # elements that the engine's own dump shows in a REACTION reactant list or a KINETICS formula (brought in by *_MODIFY)
+        for e in ents:
+            if e.n < 0:
+                continue
+            body = "\n".join(e.content_lines())
+            if e.kind == "reaction" and re.search(r"^\s+KBr\s+[0-9.]*[1-9]", body, re.M):
+                need |= {"K", "Br"}
+                rep.count("components_new_element_entries")
+            if e.kind == "kinetics" and re.search(r"^\s+SrSO4\s+[0-9.]*[1-9]", body, re.M):
+                need |= {"Sr", "S"}
+                rep.count("components_new_element_entries")
         rep.count("components_checked")
-        miss = [e for e in need if e not in comps]
+        miss = sorted(e for e in need if e not in comps)
         if miss:
             rep.viol("components", "C14:components_missing", "%s: elements %r occur in stored reactants but not in the component list %r" % (what, miss, comps))
             break
@@ -466,7 +482,7 @@ def describe(op):
     if k == "delete":
         return "delete %s %s %s" % (op["what"], op["kind"], rng_txt(op["n"], op["m"]))
     if k == "modify":
-        return "modify %s %d v%d" % (op["kind"], op["n"], op["v"])
+        return "modify %s %d v%d%s" % (op["kind"], op["n"], op["v"], " +new element" if op.get("newel") else "")
     if k == "save":
         return "save %s of cell %d -> %s (+solution %d)" % (",".join(op["kinds"]) or "-", op["a"], rng_txt(op["n"], op["m"]), op["sol"])
     if k == "run_cells":
